@@ -380,7 +380,7 @@ func c14RandOp(r *rng, names []string) c14Op {
 }
 
 func runC14(c *ctx) {
-	probes := []string{"a", "b", "ab", "", "zz"}
+	probes := []string{"a", "b", "ab", "", "zz", " a", "a ", "A", "id"}
 	mk := func(n string) c14Op { return c14Op{kind: "addtype", typ: jsonapi.Type{Name: n}} }
 	// corpus: design-phase witnesses F14a-c
 	c14History(c, []c14Op{mk("a"), mk("b"), mk("ab"), {kind: "removetype", n: "a"}}, probes, "corpus F14a remove first")
@@ -430,6 +430,9 @@ func runC14(c *ctx) {
 		} else if c.r.chance(1, 4) {
 			// member names the format reserves elsewhere are free for types, attributes and relationships
 			names = []string{"a", "b", "id", "type", "links", ""}
+		} else if c.r.chance(1, 4) {
+			// names that differ only by surrounding white space or case are different names
+			names = []string{"a", " a", "a ", "A", "b", ""}
 		}
 		var ops []c14Op
 		// start with a few types so that later edits have targets
